@@ -675,6 +675,15 @@ class Frame:
             if "P" in (kind(a), kind(b)):
                 return Bad("cross product with an absolute position")
             return TOP
+        if fn in ("np.allclose", "np.isclose", "numpy.allclose", "numpy.isclose", "math.isclose") and len(args) >= 2:
+            a, b = elem(args[0]), elem(args[1])
+            rt = next((k.value for k in c.keywords if k.arg in ("rtol", "rel_tol")), None)
+            rel = not (isinstance(rt, ast.Constant) and rt.value == 0) and not (rt is None and fn == "math.isclose" and False)
+            if rel and "P" in (kind(a), kind(b)):
+                self.note(c, Bad("absolute positions are compared with a relative tolerance (default rtol): the tolerance grows with the distance "
+                                 "from the coordinate origin, so the outcome changes when the neuron is translated"))
+                return N
+            return compare(a, b)
         if fn in ("np.sqrt", "math.sqrt") and args:
             return power(args[0], F(1, 2))
         if fn in ("np.arccos", "np.arcsin", "np.arctan", "math.acos", "math.asin", "np.cos", "np.sin", "np.tan",
